@@ -626,6 +626,18 @@ func genC17(r *simrt.Rand, tier string) any {
 				Stall: []time.Duration{5 * time.Millisecond, 800 * time.Millisecond, 3 * time.Second, 7 * time.Second}[r.Int(4)]})
 		}
 	}
+	if r.Pct(10) {
+		// shutdown-meets-connect motif: Stop is issued at the very instant a client connects, and that client
+		// then says nothing for a long time (the connection must not keep Stop waiting, nor stay counted)
+		ci := r.Int(len(sc.Clients))
+		sc.Clients[ci].Steps = []C17Step{{Op: "idle", Ms: []int{12000, 35000}[r.Int(2)]}, {Op: "null"}}
+		sc.Stalls, sc.AcceptErrs = nil, nil
+		op := "stop"
+		if sc.Export && r.Pct(50) {
+			op = []string{"close", "unexport"}[r.Int(2)]
+		}
+		sc.Admins = [][]C17Admin{{{AtMs: sc.Clients[ci].StartMs, Op: op}}}
+	}
 	if sc.Export && r.Pct(15) {
 		// concurrent-shutdown motif: a request is held up in the backend (well inside the 5 s stop grace)
 		// while two administrators shut the export down almost at the same time
